@@ -488,7 +488,9 @@ class TaskScenario(ScenarioData):
                             elif gaplength:
                                 # gaplength is working time - need to find next working slot after gap
                                 gap_hours = self._parse_duration(gaplength)
-                                gap_slots = int(gap_hours)  # Each slot is 1 hour
+                                # gap_hours of working time, counted in slots of the scheduling resolution
+                                slot_seconds = self.project.attributes.get("scheduleGranularity", 3600)
+                                gap_slots = int(gap_hours * 3600 / slot_seconds)
                                 dep_time_idx = self.project.dateToIdx(dep_time)
                                 # Skip gap_slots of working time; a gap that does not fit the scheduling
                                 # horizon puts the bound behind its end (the task is then unschedulable)
